@@ -58,15 +58,15 @@ PROPS['C14'] = dict(
         dict(name='c14-seq', quick=3000, thorough=80000),
         dict(name='c14-conc', quick=150, thorough=5000),
     ],
-    rule='sequential histories (4-53 steps) over <=4 factories, <=3 string factories, <=3 int64 and <=2 UUID providers, <=3 mappers, '
+    rule='sequential histories (4-53 steps) over <=4 factories, <=3 string factories (and their label pass-through providers over a UUID fallback), <=3 int64 and <=2 UUID providers, <=3 mappers, '
          '8 label strings incl. empty and duplicates, model = implementation step by step (non-trivial = >=2 lookups and >=3 nodes); '
          'concurrent runs: 2-16 goroutines x 20-220 ops on shared factory / string factory / providers / mapper, oracle = the property itself on what was observed',
     trusted_base=['model/BNodes.v: each step is one critical section (mutex.Lock..Unlock) or one atomic.Int64.Add of rdf/blank_node*.go, rdf/blanknodes/*.go',
                   'atomicity of sync.Mutex / atomic.Int64 (Go memory model) is assumed: the theorems cover all interleavings of atomic steps',
-                  'crypto/rand injectivity is an explicit premise of C14_uuid_labels_injective'],
+                  'crypto/rand injectivity is an explicit premise of C14_uuid_labels_injective; that a document label is never one of the UUIDs drawn is built into C14_pass_through_injective (labels and UUIDs are values of different kinds there)'],
     assumptions=['each GetBlankNodeString / MapBlankNode / NewBlankNode call is one atomic step'],
     explanation='theorems over all schedules of the blank-node state machine; sequential histories tie the step semantics to the Go code; concurrent runs exercise the real locks',
-    level_text='Proof: freshness of every factory-made node, label function + injectivity from the first call on, mapper function + injectivity, string-factory equality, for all schedules of atomic steps; '
+    level_text='Proof: freshness of every factory-made node, label function + injectivity from the first call on (int64, UUID and the string factories\' label pass-through providers), mapper function + injectivity, string-factory equality, for all schedules of atomic steps; '
                'the step semantics are compared with the Go code on sequential histories and the property itself is checked on real concurrent runs.',
     level_note='Atomicity of each operation is assumed (mutex / atomic.Add as coded); UUID uniqueness is a premise. Hooks (build tag verif) expose identifier internals to the harness.',
 )
@@ -198,7 +198,7 @@ PROPS['C07'] = dict(
     assumptions=['Turtle and TriG decoders have a Gallina model of their terminal scanners only (model/TurtleTok.v, tied to the Turtle decoder by the c02-tokens correspondence): at document level N-Triples-in-Turtle and Turtle-in-TriG are explored, not proved; the TriG copies of the scanners are reached by differential decoding only'],
     explanation='theorems: whatever the N-Triples decoder model accepts, the N-Quads decoder model decodes to the same statements, in the default graph, with the same ranges; every IRIREF and STRING_LITERAL_QUOTE the N-Triples/N-Quads scanner model accepts is read by the Turtle scanner model as the same characters up to the same delimiter (the two scanner families are separate code); the four Go decoders are compared on generated and archived documents',
     level_text='Proof for N-Triples in N-Quads over all inputs and reader endings (C07_nt_subset_nq) and for the shared terminals across the scanner families (C07_iriref_same_in_turtle, C07_string_same_in_turtle, C07_reader_runes_scalar); exploration by differential decoding for whole N-Triples documents in Turtle/TriG and Turtle in TriG.',
-    level_note='No defect found by this check itself; the Turtle/TriG fixes recorded under C08/C15/C16 apply to both decoders.',
+    level_note='Fix made while building this check: comments ended only at LF in all four decoders (F99: with CR line ends the text after a comment was swallowed). The Turtle/TriG fixes recorded under C08/C15/C16 apply to both decoders.',
 )
 
 _TTL_TOK = ('model-backed token level, eight correspondences on strings drawn from alphabets that stress each class (first/last-position rules, every PN_LOCAL_ESC character, PLX, U+00B7/combining/U+203F, controls, quotes, backslashes, surrogate and out-of-range escapes, signs/dots/exponents): '
@@ -231,7 +231,7 @@ PROPS['C08'] = dict(
                  'long strings are covered by the writer and by the string correspondence, not by the every-spelling theorem'],
     explanation='every-spelling theorems for IRIREF, short strings, PN_LOCAL and numeric tokens in the decoder scanner models; scanners = implementation on stress inputs; grammar-directed documents with independently computed denotation for the rest',
     level_text='Proof (partial): for the terminal productions, every spelling is decoded to what it denotes (C08_iriref_every_spelling, C08_short_string_every_spelling, C08_local_name_every_spelling, C08_numeric_every_token); productions above the token level by grammar-directed exploration with a denotation oracle.',
-    level_note='Fix made while building this check: "[ :p :o ] :q :r ; :s :t ." (predicate list continued after a blank node property list subject) was rejected by both decoders.',
+    level_note='Fixes made late, after reading seeded changes pointed at the generator\'s politeness: prefixes named like keywords (F96: true:x read as a boolean), keywords without following white space (F97: a<iri>, F98: GRAPH<g>{}). Fix made while building this check: "[ :p :o ] :q :r ; :s :t ." (predicate list continued after a blank node property list subject) was rejected by both decoders.',
 )
 
 PROPS['C20'] = dict(
